@@ -8,7 +8,8 @@ EXPL = ('(R-SCHEME) every path segment (entry -> loop head, one loop iteration, 
         'cursor tests; on every path: a match that the path does not refute advances its cursor (else the cursor lags for '
         'ever and later attributes / parent slots are ignored), a consumed attribute never also emits a free slot, at most '
         'one slot is written per iteration and only together with j++, and the key length is set to j after the loop. '
-        'The enumeration is exhaustive over interleavings of hidden/fixed/free slots because it does not depend on values.')
+        'The enumeration is exhaustive over interleavings of hidden/fixed/free slots because it does not depend on values.'
+        ' (R-INBOUNDS) independently of the loop structure, a must-dataflow over the CFG shows that every element of an input list (attrs.attrs, sk.b, params.h) selected by a cursor is touched only where every path has tested that cursor against the list count since it last moved.')
 
 
 def run(ctx):
